@@ -417,6 +417,11 @@ func runC02(c *Ctx) {
 		c.check(okAdd, "C02.replay-records-own", "own logged votes are re-added", ar.Pos(), "hvs.add on the own-vote arm", "own logged votes are not restored into the height vote set")
 	}
 
+	// ---- rules added after independently produced mutants were missed
+	checkReplayMonotone(c, "C02.replay-monotone")
+	checkRoundIncreases(c, "C02.round-increases")
+	checkConsensusCallbacks(c, "C02.stale-callbacks")
+
 	// ---- "remembered across crashes that leave torn records": the WAL recovery
 	// obligations of C03 are necessary conditions of C02 as well (a vote that is
 	// lost or cut off by a bad repair is signed again).
